@@ -137,6 +137,12 @@ func (h *NFSProcedureHandler) handleWrite(body io.Reader, reply *RPCReply, authC
 		return nfsErrorWithWcc(reply, NFSERR_INVAL), nil
 	}
 
+	// Enforce the configured maximum file size (0 = unlimited)
+	if maxSize := h.server.handler.policy.Load().MaxFileSize; maxSize > 0 && count > 0 &&
+		(offset > uint64(maxSize) || uint64(count) > uint64(maxSize)-offset) {
+		return nfsErrorWithWcc(reply, NFSERR_FBIG), nil
+	}
+
 	data := make([]byte, count)
 	if _, err := io.ReadFull(body, data); err != nil {
 		return nfsErrorWithWcc(reply, GARBAGE_ARGS), nil
